@@ -113,6 +113,9 @@ def print_switch_input(r):
         t += "SELECTED_OUTPUT %d\n -reset false\n" % n + r.choice(cols)
         if r.random() < 0.3:
             t += "USER_PUNCH %d\n -headings mu\n 10 PUNCH MU\n" % n
+        elif r.random() < 0.5:
+            # BASIC memory: stored by the first simulation, read by every later one (PUT / GET / EXISTS outlive simulations and calls alike)
+            t += "USER_PUNCH %d\n -headings stored known\n 10 IF EXISTS(7, %d) = 0 THEN PUT(TOT(\"Na\"), 7, %d)\n 20 PUNCH GET(7, %d), EXISTS(7, %d)\n" % (n, n, n, n, n)      # (SIM_NO restarts with every call: not usable as a once-only guard)
     t += "END\n"
     cur = 1
     for k in range(r.randint(3, 6)):
